@@ -17,7 +17,8 @@
 //!            stream: that request fails, the connection lives)
 //!          | dup (the reply is sent twice: the second copy is a frame nobody waits for)
 //!          | short (the reply's length field announces <off%8+1> bytes less than follow: misframing)
-//!          | corr (byte <off> of the reply frame's header -- version, flags, opcode, frame length --
+//!          | corr (byte <off> of the reply frame's header -- version, flags, opcode, frame length: 7 of the 9
+//!            header bytes, not the stream id --
 //!            is XORed with a mask: in-frame corruption; the other replies are normal)
 //!          | 2x<kind>: the whole scenario twice, the second fault hits the re-established connection
 //!            (markers n+1..2n in the second phase)
@@ -26,8 +27,9 @@
 //!   cancel: the last <cancel> client futures are dropped 3 ms after the start (orphaned stream ids)
 //! observation (after '|'):
 //!   res=<r1>,..,<rn>   r = ok:<marker>:<padlen>:<padok> | err:<class> | hang | cancelled
-//!   pxb=<hex of the constant body prefix>  pool=<a|g|b><node>.<conn>,.. (global order: handshake done,
-//!   request frame arrived, connection broke)  aux=..
+//!   pxb=<hex of the constant body prefix>  pool=<a|g|b><node>.<conn>@<ms>,.. (the mock's global order: STARTUP
+//!   frame of a pool connection arrived, request frame arrived, a handshaken connection was closed/cut)  aux=..
+//!   stall=<largest scheduling stall of the runner's own runtime during the case, ms>
 //!   fu=ok|err|hang  ph=<probe requests of burst rounds that hung>  tmax=<ms>  bound=<ms>  px=<body prefix length>
 //!   conns=<conn>;<conn>..   conn = <node>.<connid>:<ev>,<ev>..
 //!     ev = i<stream>.<rid> request frame (rid = marker, or -k for handshake frames)
@@ -45,8 +47,10 @@ use std::time::{Duration, Instant};
 use vh::mocknode::*;
 use vh::*;
 
-const KA_INTERVAL_MS: u64 = 150;
-const KA_TIMEOUT_MS: u64 = 250;
+// generous against scheduling jitter: a keepalive answer that takes longer than the timeout although the
+// mock answered at once would look like a fault the scenario did not inject
+const KA_INTERVAL_MS: u64 = 400;
+const KA_TIMEOUT_MS: u64 = 800;
 /// generous completion bound: keepalive interval + timeout + margin for a loaded machine
 const BOUND_MS: u64 = KA_INTERVAL_MS + KA_TIMEOUT_MS + 20_000;
 const FOLLOWUP: i64 = 9999;
@@ -130,6 +134,28 @@ fn marker_of(ctx_text: Option<&str>, params: Option<&QueryParams>, prep: bool) -
     } else {
         ctx_text?.rsplit("m = ").next()?.trim().parse().ok()
     }
+}
+
+/// Scheduling stalls of this runner's own runtime: (ms since process start, lateness in ms) of a 10 ms
+/// ticker, recorded when the tick came more than 20 ms late.  A case during which the runtime was starved
+/// reports it (`stall=<ms>`), so that a broken correspondence caused by starvation is a counted not-run.
+static STALLS: Mutex<Vec<(u64, u64)>> = Mutex::new(Vec::new());
+static T_PROC: std::sync::OnceLock<Instant> = std::sync::OnceLock::new();
+fn now_ms() -> u64 {
+    T_PROC.get_or_init(Instant::now).elapsed().as_millis() as u64
+}
+async fn stall_monitor() {
+    loop {
+        let t = Instant::now();
+        tokio::time::sleep(Duration::from_millis(10)).await;
+        let late = (t.elapsed().as_millis() as u64).saturating_sub(10);
+        if late > 20 {
+            STALLS.lock().unwrap().push((now_ms(), late));
+        }
+    }
+}
+fn max_stall(from_ms: u64, to_ms: u64) -> u64 {
+    STALLS.lock().unwrap().iter().filter(|(t, l)| *t >= from_ms && t.saturating_sub(*l) <= to_ms).map(|x| x.1).max().unwrap_or(0)
 }
 
 struct HState {
@@ -260,6 +286,7 @@ async fn burst_rounds(cluster: &MockCluster, session: &Arc<Session>, c: &Case, p
 }
 
 async fn run_case(c: Case) -> String {
+    let case_start_ms = now_ms();
     let twice = c.fault.starts_with("2x");
     let mut c = c;
     if twice {
@@ -555,7 +582,7 @@ async fn run_case(c: Case) -> String {
     let fault_conn = hs.lock().unwrap().fault_conn;
     if let Some(fc) = fault_conn {
         let tw = Instant::now();
-        while cluster.connections(Some(0)).iter().any(|x| x.conn_id == fc) && tw.elapsed() < Duration::from_secs(3) {
+        while cluster.connections(Some(0)).iter().any(|x| x.conn_id == fc) && tw.elapsed() < Duration::from_secs(10) {
             tokio::time::sleep(Duration::from_millis(5)).await;
         }
     }
@@ -608,9 +635,9 @@ async fn run_case(c: Case) -> String {
                 let ka = *opcode == op::OPTIONS && cn.3;
                 if *opcode == op::STARTUP {
                     cn.3 = true;
-                    pool.push(format!("a{}.{}", e.node, e.conn_id));
+                    pool.push(format!("a{}.{}@{}", e.node, e.conn_id, e.t_ns / 1_000_000));
                 } else if matches!(*opcode, op::QUERY | op::EXECUTE | op::BATCH | op::PREPARE) {
-                    pool.push(format!("g{}.{}", e.node, e.conn_id));
+                    pool.push(format!("g{}.{}@{}", e.node, e.conn_id, e.t_ns / 1_000_000));
                 }
                 let rid = match marker {
                     // probes / follow-ups may be repeated: they get synthetic ids like handshake frames
@@ -633,8 +660,9 @@ async fn run_case(c: Case) -> String {
             // (a stall is not a break yet: the client notices at its keepalive timeout and closes -> X)
             Ev::Stalled => cn.2.push(format!("S@{}", (e.t_ns.saturating_sub(t0_ns)) / 1_000_000)),
             Ev::Close { by } => {
-                if broke.insert(e.conn_id) {
-                    pool.push(format!("b{}.{}", e.node, e.conn_id));
+                // (only a connection that took part in the pool: one whose handshake was abandoned never did)
+                if cn.3 && broke.insert(e.conn_id) {
+                    pool.push(format!("b{}.{}@{}", e.node, e.conn_id, e.t_ns / 1_000_000));
                 }
                 cn.2.push(format!(
                 "{}@{}",
@@ -651,8 +679,9 @@ async fn run_case(c: Case) -> String {
     }
     let conns_s: Vec<String> = conns.iter().map(|c| format!("{}.{}:{}", c.0, c.1, if c.2.is_empty() { "-".to_string() } else { c.2.join(",") })).collect();
     format!(
-        "res={} fu={} ph={} aux={} tmax={} bound={} px={} pxb={} pool={} conns={}",
+        "res={} stall={} fu={} ph={} aux={} tmax={} bound={} px={} pxb={} pool={} conns={}",
         res.join(","),
+        max_stall(case_start_ms, now_ms()),
         fu,
         probe_hangs,
         if aux_res.is_empty() { "-".to_string() } else { aux_res.join(",") },
@@ -834,6 +863,8 @@ fn main() {
     let par: usize = std::env::var("C10_PAR").ok().and_then(|s| s.parse().ok()).unwrap_or(12);
     let rt = tokio::runtime::Builder::new_multi_thread().worker_threads(8).enable_all().build().unwrap();
     let results: Vec<(String, String)> = rt.block_on(async move {
+        now_ms();
+        tokio::spawn(stall_monitor());
         use futures::stream::{self, StreamExt};
         stream::iter(cases.into_iter().map(|c| async move {
             let line = c.line();
